@@ -315,6 +315,6 @@ pub fn def() -> PropertyDef {
         level: "exploration",
         rule: "operand states reached by random build sequences (multiply, square, relinearize, mod switch, rescale, representation changes, plaintext products) in BFV, BGV and CKKS; for each of 26 evaluator entry points the in-place, destination (pre-filled with an unrelated ciphertext) and value-returning forms are executed on the same operands: all three must either return word-for-word identical objects (and leave read-only operands unchanged, and the result must be valid and accepted by a follow-up add) or all three must refuse. Where they succeed, one operand is corrupted in a single field (residue = q_i / 2^64-1, foreign / other-level / key-level parms id, size 1 / 17, coeff_modulus_size or degree off, buffer length off by one, scale, correction factor, seed flag; plaintext coefficient = t, NTT residue = q_i, foreign id, wrong length; seed-compressed or foreign keys) and every form must refuse. non-trivial: forms agreed on a non-fresh operand state, or a corruption was exercised.",
         assumptions: vec!["any panic counts as a refusal (the library's convention)", "no-op requests (target level = current level) are excluded from the refusal clause because nothing is computed"],
-        subs: vec![Sub::prop("forms_and_corruptions", 80_000, 1_500_000, 0.3, forms_case, oracle)],
+        subs: vec![Sub::prop("forms_and_corruptions", 200_000, 1_500_000, 0.3, forms_case, oracle)],
     }
 }
